@@ -8,7 +8,7 @@
         "digraph " ++ quoted name ++ " {\n" ++ body ++ "}\n"
      where body is the rendering of the statement list [dot_stmts] (one node statement per node, one edge
      statement per edge, in order: C18_dot_nodes_once / C18_dot_edges_once) and no statement carries an
-     attribute of unsupported type, or the call panicked (status 2) and some statement carries an attribute
+     attribute of unsupported type, or the call panicked (status 2, no output bytes) and some statement carries an attribute
      whose value has an unsupported type: the call panics EXACTLY when such an attribute is present.
    Closed under the global context. *)
 From MM Require Import Base.Num Base.GCGraph Model.Dot Proofs.Dot Check.C18 Proofs.CheckBase Proofs.CheckC18Base.
@@ -131,7 +131,7 @@ Definition sprint_case_ok (rest : list Z) : Prop :=
     ((status = 0 /\ (forall s a, In s stmts -> In a (stmt_attrs s) -> snd a <> AOther) /\
       exists body, render_all stmts = Some body /\
         obs = ZsN ([100; 105; 103; 114; 97; 112; 104; 32] ++ dot_string (d_name d) ++ [32; 123; 10] ++ body ++ [125; 10])%N)
-     \/ (status = 2 /\ exists s a, In s stmts /\ In a (stmt_attrs s) /\ snd a = AOther)).
+     \/ (status = 2 /\ obs = [] /\ exists s a, In s stmts /\ In a (stmt_attrs s) /\ snd a = AOther)).
 
 Theorem check_sprint_sound : forall l c tag pos diag r,
   check_sprint l = Some (verdict c tag pos diag, r) -> c = 0 \/ c = 1 -> c = 0 /\ r = [] /\ sprint_case_ok l.
@@ -153,6 +153,7 @@ Proof.
     exists body. split; [exact R|exact Eo].
   - exists 2, a8. split; [unfold parse_sprint; prebuild|]. split; [exact Ewf|]. cbv zeta. fold d.
     split; [apply dot_nodes_once|]. split; [apply dot_edges_once|]. right. split; [reflexivity|].
+    split; [match goal with H : (length _ =? 0)%nat = true |- _ => apply Nat.eqb_eq in H; apply length_zero_iff_nil; exact H end|].
     unfold dot_sprint in ES. destruct (render_all (dot_stmts d (g_out a) (g_n a))) eqn:R; [discriminate|].
     apply render_all_None in R. destruct R as (s & I & R). apply render_stmt_None in R. destruct R as (x & Ix & Ex). eauto.
 Qed.
